@@ -15,7 +15,7 @@ from pyasn1.codec.streaming import isEndOfStream
 from pyasn1.codec.streaming import peekIntoStream
 from pyasn1.codec.streaming import readFromStream
 from pyasn1.compat.integer import from_bytes
-from pyasn1.compat.octets import oct2int, octs2ints, ints2octs, null
+from pyasn1.compat.octets import int2oct, oct2int, octs2ints, ints2octs, null
 from pyasn1.error import PyAsn1Error
 from pyasn1.type import base
 from pyasn1.type import char
@@ -187,8 +187,12 @@ class BitStringPayloadDecoder(AbstractSimplePayloadDecoder):
                      tagSet=None, length=None, state=None,
                      decodeFun=None, substrateFun=None,
                      **options):
+        # being a fragment of an enclosing constructed string?
+        isFragment = substrateFun is self.substrateCollector
 
-        if substrateFun:
+        if substrateFun and not (
+                isFragment and
+                tagSet[0].tagFormat != tag.tagFormatSimple):
             asn1Object = self._createComponent(asn1Spec, tagSet, noValue, **options)
 
             for chunk in substrateFun(asn1Object, substrate, length, options):
@@ -257,14 +261,27 @@ class BitStringPayloadDecoder(AbstractSimplePayloadDecoder):
                 prepend=bitString, padding=trailingBits
             )
 
-        yield self._createComponent(asn1Spec, tagSet, bitString, **options)
+        if isFragment:
+            # a constructed fragment (X.690 8.6.4): hand up its bits the
+            # way a primitive fragment carries them
+            yield self._asFragment(bitString)
+
+        else:
+            yield self._createComponent(asn1Spec, tagSet, bitString, **options)
+
+    def _asFragment(self, bitString):
+        bitString = self.protoComponent.clone(bitString)
+        padding = -len(bitString) % 8
+        return int2oct(padding) + (bitString << padding).asOctets()
 
     def indefLenValueDecoder(self, substrate, asn1Spec,
                              tagSet=None, length=None, state=None,
                              decodeFun=None, substrateFun=None,
                              **options):
+        # being a fragment of an enclosing constructed string?
+        isFragment = substrateFun is self.substrateCollector
 
-        if substrateFun:
+        if substrateFun and not isFragment:
             asn1Object = self._createComponent(asn1Spec, tagSet, noValue, **options)
 
             for chunk in substrateFun(asn1Object, substrate, length, options):
@@ -306,7 +323,11 @@ class BitStringPayloadDecoder(AbstractSimplePayloadDecoder):
                 prepend=bitString, padding=trailingBits
             )
 
-        yield self._createComponent(asn1Spec, tagSet, bitString, **options)
+        if isFragment:
+            yield self._asFragment(bitString)
+
+        else:
+            yield self._createComponent(asn1Spec, tagSet, bitString, **options)
 
 
 class OctetStringPayloadDecoder(AbstractSimplePayloadDecoder):
